@@ -63,6 +63,16 @@ def gen_specs(rep, tier):
         specs.append({'kind_g': kind, 'els_g': els, 'kind_h': k2, 'els_h': els2, 'active': active,
                       'cuts': cuts, 'nps': nps, 'ps': ps, 'presort': presort, 'repack': repack})
 
+    # 0. fixed witnesses of the two recorded Dask limits (tied keys): fewer partitions than
+    #    requested; deferred AssertionError of RepartitionToFewer
+    els = C06.template('point', 0)
+    k2, els2 = C06.second_column('point')
+    spec('point', els, k2, els2, 'g', [0, 6], [3], [5])
+    spec('point', els, k2, els2, 'g', [0, 6], [2], [5])
+    # all rows share one key: one partition works, several = Dask raises, nothing claimed
+    same = [[3, 3]] * 4
+    spec('point', same, 'line', [[0, 0, 1, 1]] * 4, 'g', [0, 2, 4], [1, 3], [15])
+    spec('line', [None] * 3, 'point', [[1, 1], [2, 2], None], 'g', [0, 1, 3], [1, 2], [5])
     # A. one frame, every input partitioning, a few (npartitions, p)
     for kind in (['point', 'polygon'] if quick else G.KINDS):
         els = C06.template(kind, 0)
@@ -113,9 +123,23 @@ def check_packing(ctx, spec, df, X, npart, p, tag, baseline):
         ctx['unclaimed'].append(str(e)[:60])
         return None
     except Exception as e:
-        rep.violation(f'compute-raises:{type(e).__name__}',
+        import traceback
+        tb = traceback.format_exc()
+        name = type(e).__name__
+        key = keys_of(df, p)
+        tied = len(set(key.values())) < len(key)
+        if len(set(key.values())) <= 1 and req > 1:
+            # all rows share one key and several partitions were requested: nothing claimed
+            rep.count('unclaimed:' + name)
+            ctx['unclaimed'].append(name)
+            return None
+        if isinstance(e, AssertionError) and not (
+                '_repartition.py' in tb and '_partitions_boundaries' in tb and tied):
+            name = 'AssertionError-elsewhere'   # only Dask's RepartitionToFewer on tied keys is known
+        rep.violation(f'compute-raises:{name}',
                       f'pack_partitions(npartitions={npart}, p={p}) returned a frame whose '
-                      f'computation raises {type(e).__name__}: {str(e)[:150]}', info)
+                      f'computation raises {type(e).__name__}: {str(e)[:150]} '
+                      f'(keys {sorted(key.values())})', {**info, 'trace': tb[-600:]})
         return None
     rep.evaluations += 1
     rep.count('kind:' + (spec['kind_g'] if spec['active'] == 'g' else spec['kind_h']))
@@ -162,7 +186,19 @@ def check_packing(ctx, spec, df, X, npart, p, tag, baseline):
     if idx != sorted(idx):
         rep.violation('not-sorted', f'keys not non-decreasing across the output: {idx}', info)
     # count
-    if len(parts) != req or P.npartitions != len(parts):
+    if len(parts) > req:
+        rep.violation('partition-count-more',
+                      f'pack_partitions(npartitions={npart}, p={p}) computes to {len(parts)} '
+                      f'partitions, more than the {req} requested', info)
+    elif len(parts) == req and P.npartitions != req:
+        rep.violation('npartitions-attribute',
+                      f'.npartitions={P.npartitions} but {len(parts)} partitions are computed', info)
+    elif len(parts) < req and (P.npartitions != req or idx != sorted(idx)):
+        rep.violation('partition-count-inconsistent',
+                      f'asked for {req}, .npartitions={P.npartitions}, computes to {len(parts)}', info)
+    elif len(parts) < req:
+        # known class: fewer real partitions than requested while .npartitions echoes the
+        # request; rows, keys and order were found right above
         rep.violation('partition-count',
                       f'pack_partitions(npartitions={npart}, p={p}) was asked for {req} partitions, '
                       f'says .npartitions={P.npartitions} and computes to {len(parts)} '
@@ -186,9 +222,9 @@ def check_packing(ctx, spec, df, X, npart, p, tag, baseline):
                           for q in in_parts],
                          [[(C.Nat(int(v)), coqN(int(i))) for v, i in zip(q['v'].tolist(), q.index.tolist())]
                           for q in parts],
-                         coqN(len(parts))))
+                         coqN(req)))
     ctx['results'].append((U.cbox(tuple(float(x) for x in X.geometry.total_bounds)),
-                           True, True, True))
+                           True, True, len(parts) == req))
     ctx['metas'].append(info)
     return P
 
